@@ -319,7 +319,7 @@ func (h *H) mutate(s string) (string, string) {
 func (h *H) addresses() {
 	c := h.c
 	nAddr := c.N(12, 60)
-	nModelAll := c.N(6, 18) // addresses whose complete substitution table goes to the model
+	nModelAll := c.N(3, 18) // addresses whose complete substitution table goes to the model
 	all := make([]byte, 256)
 	for i := range all {
 		all[i] = byte(i)
@@ -451,7 +451,7 @@ func validHrp(s string) bool {
 
 func (h *H) bech32Stream() (valid []string) {
 	c := h.c
-	for k := 0; k < c.N(150, 1200); k++ {
+	for k := 0; k < c.N(100, 1200); k++ {
 		var hrp string
 		switch c.Rng.Intn(6) {
 		case 0:
@@ -565,7 +565,7 @@ func (h *H) hostile(valid []string) {
 	}
 	var ins []string
 	ins = append(ins, fixed...)
-	for k := 0; k < c.N(300, 3000); k++ {
+	for k := 0; k < c.N(180, 3000); k++ {
 		switch c.Rng.Intn(8) {
 		case 0:
 			ins = append(ins, string(c.Rng.Bytes(c.Rng.Intn(100))))
@@ -631,7 +631,7 @@ func (h *H) convertStream() {
 		}
 	}
 	// correspondence on all width pairs, including the rejected ones
-	for k := 0; k < c.N(250, 2500); k++ {
+	for k := 0; k < c.N(150, 2500); k++ {
 		from, to := uint8(c.Rng.Intn(10)), uint8(c.Rng.Intn(10))
 		if c.Rng.Chance(50) {
 			from, to = []uint8{5, 8}[c.Rng.Intn(2)], []uint8{5, 8}[c.Rng.Intn(2)]
@@ -735,7 +735,7 @@ func (h *H) base32Stream() {
 		"AAAAAA==", "AAAA====", "AAAAA===", "AAAAAAA=", "AAAAAAAA", "AAAAAAAAA", "AAAAAAAAAA======", "AA==AA==", "========",
 		"MZXW6YTB\nOI======", "MZXW\r\n6YTBOI======", "\n", "MY======\n", "my======", "M1======", "AA======\xff", "\xff", "AA\xff=====", "AA=====é"}
 	ins := fixed
-	for k := 0; k < c.N(250, 2500); k++ {
+	for k := 0; k < c.N(150, 2500); k++ {
 		switch c.Rng.Intn(4) {
 		case 0:
 			ins = append(ins, h.randString("ABCDEFGH234567=01\n", c.Rng.Intn(30)))
@@ -896,7 +896,7 @@ func (h *H) mnemonicStream() {
 		valid = append(valid, struct{ lang, m string }{l.code, m})
 	}
 	// decoding of damaged and arbitrary sentences
-	for k := 0; k < c.N(150, 1500); k++ {
+	for k := 0; k < c.N(100, 1500); k++ {
 		v := valid[c.Rng.Intn(len(valid))]
 		ws := strings.Fields(v.m)
 		lw := maps[v.lang]
